@@ -72,6 +72,14 @@ def fam_cid(rng, i):
             start = life - 30000 - rng.choice([500, 2000]) + rng.choice([0, life])
             p["bh"] = f"{start}:{start + rng.choice([3000, 12000, 33000])}:{rng.choice([1, 2])}"
             p["drop_pm"] = 0
+            if i % 2 == 1:
+                # two ids retire a little apart, the later-numbered one first, while the frames that announce the first
+                # retirement are being lost: whatever is (re)sent afterwards must still cover both
+                d = rng.choice([200, 1000, 3000])
+                for e in (("c", "s") if which == "both" else (which,)):
+                    p[e + ".cid_lifetime_ms"] = life + d
+                    p[e + ".cid_lifetime_alt_ms"] = life
+                p.pop("cid_lifetime_ms", None)
     if kind in ("rebind", "rebind-lifetime"):
         span = hold if hold else rng.choice([2000, 6000, 15000])
         n = rng.choice([1, 2, 3, 4, 4, 6])
